@@ -15,6 +15,7 @@
 package crdt
 
 import (
+	"errors"
 	"time"
 
 	"github.com/kelindar/binary"
@@ -40,6 +41,9 @@ func New(durable bool, path string) Map {
 }
 
 // ------------------------------------------------------------------------------------
+
+// errInvalidValue is returned when a decoded value does not contain a time pair.
+var errInvalidValue = errors.New("crdt: invalid value")
 
 // Value represents a time pair with a value.
 type Value []byte
